@@ -579,4 +579,22 @@ def gen_scenarios(rng):
             ops.append({"op": "manage", "now": now + 1, "kind": "requeue", "ids": ["M%04d" % j for j in range(n - 1, -1, -1)], "snap": True})
         ops.append({"op": "stats", "now": now + 5, "snap": True})
         hs.append({"cfg": _cfg0(), "ops": ops, "snap_every": 5000, "c13_ok": True, "only": ["C14"]})
+    # S14: a lease has run out (its worker is gone) while the queue never runs dry: every following dequeue finds at least `batch` other
+    #      ready messages.  The abandoned message is offered again by the first dequeue after its lease ended all the same - it is the oldest
+    for b in (1, 2, 3):
+        now = BASE + rng.randrange(1000) * SEC
+        ops = [{"op": "enqueue", "now": now, "enq": [_enq("lost", body=150)]},
+               {"op": "dequeue", "now": now + MS, "route": "", "target": "", "batch": 1, "ttl": SEC}]
+        now += 2 * SEC
+        for rnd in range(4):
+            for j in range(b):
+                now += MS
+                ops.append({"op": "enqueue", "now": now, "enq": [_enq("n%d_%d" % (rnd, j), body=151 + j)]})
+            now += 50 * MS
+            ops.append({"op": "dequeue", "now": now, "route": "", "target": "", "batch": b, "ttl": 30 * SEC})
+            d = len(ops) - 1
+            for j in range(b):
+                ops.append({"op": "lease", "now": now + 1, "kind": "ack", "dur": 0, "reason": "", "lease": {"ref": [d, j]}})
+        ops.append({"op": "stats", "now": now + 2})
+        hs.append({"cfg": _cfg0(), "ops": ops, "snap_every": 1, "c13_ok": True})
     return hs
